@@ -528,9 +528,61 @@ def gen_items(rng, kind, depth=0):
     return items
 
 
+def check_cross_container(case, ctx, pytrs):
+    """One pyTRS container given to the other kind: a TRSList takes the
+    tracts of a TractList converted to TRS objects, in order; a TractList
+    given a TRSList raises TypeError -- by every construction path."""
+    trs_a, trs_b, path = case['a'], case['b'], case['path']
+    ctx.hit('cross-container')
+    base_r, base_t = pytrs.TRS('1n1w01'), pytrs.Tract('W/2', trs='1n1w01')
+    tl = pytrs.TractList([pytrs.Tract('NE/4', trs=x) for x in trs_a])
+    rl = pytrs.TRSList(trs_b)
+
+    def build(cls, base, other):
+        if path == 'init':
+            return cls(other), []
+        lst = cls([base])
+        if path == 'extend':
+            lst.extend(other)
+        elif path == 'iadd':
+            lst += other
+        elif path == 'add':
+            lst = lst + other
+        elif path == 'from_multiple':
+            return cls.from_multiple([base], other), [base]
+        return lst, [base]
+    # TRSList <- TractList
+    got, head = build(pytrs.TRSList, base_r, tl)
+    want = [x.trs for x in head] + [pytrs.TRS(x).trs for x in trs_a]
+    if [getattr(x, 'trs', None) for x in got] != want \
+            or not all(isinstance(x, pytrs.TRS) for x in got):
+        ctx.violation('construct-content', case,
+                      f"TRSList via {path} given a TractList holds "
+                      f"{[type(x).__name__ for x in got]} "
+                      f"{[getattr(x, 'trs', x) for x in got]}, expected TRS "
+                      f"objects {want}", dedup=f"cross|trs|{path}")
+    # TractList <- TRSList
+    if not trs_b:
+        return
+    try:
+        got, _ = build(pytrs.TractList, base_t, rl)
+    except TypeError:
+        return
+    ctx.violation('construct-drops-silently', case,
+                  f"TractList via {path} given a TRSList raised nothing and "
+                  f"holds {[type(x).__name__ for x in got]}",
+                  dedup=f"cross|tract|{path}")
+
+
 def run_case(case, ctx, rep, pytrs):
     rep.set_case(case)
     kind = case['kind']
+    if case['op'] == 'cross-container':
+        ctx.case(case, True, shape=f"cross-container|{case['path']}",
+                 sample=case)
+        with ctx.guard(case):
+            check_cross_container(case, ctx, pytrs)
+        return
     with ctx.guard(case):
         if case['op'] == 'construct':
             ctx.case(case, True, shape=f"construct|{kind}|{case['path']}",
@@ -555,6 +607,12 @@ def run_case(case, ctx, rep, pytrs):
 def gen_case(rng, pytrs):
     kind = rng.choice(['tract', 'tract', 'trs'])
     r = rng.random()
+    if r < 0.04:
+        return {'op': 'cross-container', 'kind': kind,
+                'a': [rng.choice(TRS_POOL) for _ in range(rng.randint(0, 4))],
+                'b': [rng.choice(TRS_POOL) for _ in range(rng.randint(0, 4))],
+                'path': rng.choice(['init', 'extend', 'iadd', 'add',
+                                    'from_multiple'])}
     if r < 0.3:
         return {'op': 'construct', 'kind': kind,
                 'path': rng.choice(['init', 'init-generator', 'extend', 'iadd',
